@@ -28,6 +28,7 @@ RULE = (
     "history = interleaving of 'define class (parent, own tag or none)', 'create holder/decoder for root r' and 'decode input tagged t at root r' events; "
     "entry: Config.discriminator (from_dict on any class of the hierarchy), Annotated field of a holder dataclass, BasicDecoder; variants: mixin or plain dataclasses; "
     "tags: own default, inherited only (no own tag), tagger function; t drawn from present tags, tags of classes defined later, unknown tags, missing key; "
+    "Config mode also through the orjson / msgpack / json mixins with decode events alternating between from_dict and from_json / from_msgpack; tagger histories with a second discriminated field using another tagger function in the same holder; "
     "non-trivial = the history defines a class after the first decode at a root that can see it, or the hierarchy is >= 3 levels deep"
 )
 
@@ -37,7 +38,7 @@ MODES = ["config", "ann_mixin", "ann_plain", "codec_mixin", "codec_plain"]
 class World:
     """real classes for one history"""
 
-    def __init__(self, mode, field, sub, sup, tagger, idx):
+    def __init__(self, mode, field, sub, sup, tagger, idx, flavour="dict", two_taggers=False):
         from mashumaro import DataClassDictMixin
         from mashumaro.config import BaseConfig
         from mashumaro.types import Discriminator
@@ -46,7 +47,17 @@ class World:
         self.cls = {}
         self.ids = {}
         self.entry = {}
-        self.mixin = DataClassDictMixin
+        self.flavour = flavour
+        self.two_taggers = two_taggers
+        if flavour == "orjson":
+            from mashumaro.mixins.orjson import DataClassORJSONMixin as M
+        elif flavour == "msgpack":
+            from mashumaro.mixins.msgpack import DataClassMessagePackMixin as M
+        elif flavour == "json":
+            from mashumaro.mixins.json import DataClassJSONMixin as M
+        else:
+            M = DataClassDictMixin
+        self.mixin = M
         self.BaseConfig = BaseConfig
         kw = {"include_subtypes": sub, "include_supertypes": sup}
         if field:
@@ -54,6 +65,9 @@ class World:
             if tagger:
                 kw["variant_tagger_fn"] = lambda c: c.__dict__.get("_tag_", "untagged-" + c.__name__)
         self.discr = Discriminator(**kw)
+        # a second discriminator of the same holder class with ANOTHER tagger function (never matched
+        # by the inputs: its field stays at its default)
+        self.discr_alt = Discriminator(**{**kw, "variant_tagger_fn": lambda c: "alt-" + c.__name__}) if (field and tagger and two_taggers) else None
 
     def define(self, i, parent, tag, req, cfg=False):
         ns = {"__annotations__": {}}
@@ -64,6 +78,10 @@ class World:
             ns["type"] = tag
         if req:
             ns["__annotations__"][f"f{i}"] = int
+        # a member of its own for every class: a result built by a method compiled for another
+        # class of the chain would not have read it
+        ns["__annotations__"][f"g{i}"] = int
+        ns[f"g{i}"] = 0
         bases = (self.cls[parent],) if parent is not None else ((self.mixin,) if self.mode in ("config", "ann_mixin", "codec_mixin") else ())
         if (parent is None or cfg) and self.mode == "config":
             ns["Config"] = type("Config", (self.BaseConfig,), {"discriminator": self.discr})
@@ -83,24 +101,42 @@ class World:
 
         c = self.cls[root]
         if self.mode == "config":
-            self.entry[root] = lambda d: c.from_dict(d)
+            def entry(d, fmt="dict", c=c):
+                if fmt == "dict":
+                    return c.from_dict(d)
+                if fmt == "json":
+                    import json
+
+                    return c.from_json(json.dumps(d))
+                import msgpack
+
+                return c.from_msgpack(msgpack.packb(d))
+
+            self.entry[root] = entry
         elif self.mode.startswith("ann"):
             name = f"W{self.idx}_H{root}"
-            h = type(name, (self.mixin,), {"__annotations__": {"x": typing.Annotated[c, self.discr]}})
+            ann, ns = {}, {}
+            if self.discr_alt is not None:
+                ann["y"] = typing.Optional[typing.Annotated[c, self.discr_alt]]
+            ann["x"] = typing.Annotated[c, self.discr]
+            ns["__annotations__"] = ann
+            if self.discr_alt is not None:
+                ns["y"] = None
+            h = type(name, (self.mixin,), ns)
             h.__module__ = __name__
             globals()[name] = h
-            h = dataclasses.dataclass(h)
+            h = dataclasses.dataclass(h, kw_only=True)
             self.entry[root] = lambda d: h.from_dict({"x": d}).x
         else:
             dec = BasicDecoder(typing.Annotated[c, self.discr])
             self.entry[root] = dec.decode
 
-    def decode(self, root, d):
+    def decode(self, root, d, fmt="dict"):
         from mashumaro.exceptions import InvalidFieldValue, MissingDiscriminatorError, SuitableVariantNotFoundError
 
         self.make(root)
         try:
-            r = self.entry[root](d)
+            r = self.entry[root](d) if fmt == "dict" else self.entry[root](d, fmt)
         except InvalidFieldValue as e:
             c = e.__context__ if e.__cause__ is None else e.__cause__
             if isinstance(c, MissingDiscriminatorError):
@@ -115,6 +151,10 @@ class World:
         except Exception as e:  # noqa
             return f"error:{type(e).__name__}:{e}"[:160]
         i = self.ids.get(type(r))
+        if i is not None:
+            lost = [a for a in self.ids.values() if isinstance(r, self.cls[a]) and getattr(r, f"g{a}", None) != 7]
+            if lost:
+                return f"error:instance of C{i} whose members {['g%d' % a for a in sorted(lost)]} were not read from the input"
         return f"inst:{i}" if i is not None else f"error:returned {type(r).__name__}"
 
     def close(self):
@@ -133,6 +173,9 @@ def gen_history(rng, tier):
     else:
         sub, sup = rng.choice([(True, False), (True, True), (True, True), (False, True)])
     tagger = field and rng.random() < 0.15
+    flavour = rng.choice(["dict", "dict", "orjson", "orjson", "msgpack", "json"]) if mode == "config" else "dict"
+    fmts = {"dict": ["dict"], "orjson": ["dict", "json"], "json": ["dict", "json"], "msgpack": ["dict", "msgpack"]}[flavour]
+    two_taggers = bool(tagger and mode.startswith("ann") and rng.random() < 0.6)
     ncls = rng.randint(2, 12)
     nev = rng.randint(6, 40)
     dup = rng.random() < 0.12
@@ -192,8 +235,16 @@ def gen_history(rng, tier):
                 t = "unknown"
             else:
                 t = None
-            events.append({"q": [root, t], "fields": sorted(rng.sample(range(ncls), rng.randint(0, ncls)))})
-    return {"mode": mode, "field": field, "sub": sub, "sup": sup, "tagger": tagger, "events": events}
+            ev = {"q": [root, t], "fields": sorted(rng.sample(range(ncls), rng.randint(0, ncls)))}
+            if len(fmts) > 1:
+                ev["fmt"] = rng.choice(fmts)
+            events.append(ev)
+    h = {"mode": mode, "field": field, "sub": sub, "sup": sup, "tagger": tagger, "events": events}
+    if flavour != "dict":
+        h["flavour"] = flavour
+    if two_taggers:
+        h["two_taggers"] = True
+    return h
 
 
 def model_tag(h, d):
@@ -214,7 +265,7 @@ def chain(parents, i):
 
 def real_history(ctx, h, idx):
     """replays one history on real classes; returns the record to be judged, or None"""
-    w = World(h["mode"], h["field"], h["sub"], h["sup"], h["tagger"], idx)
+    w = World(h["mode"], h["field"], h["sub"], h["sup"], h["tagger"], idx, h.get("flavour", "dict"), h.get("two_taggers", False))
     real = []
     lines = []
     classes = []  # [id, parent, modeltag]
@@ -243,7 +294,9 @@ def real_history(ctx, h, idx):
                 if not h["field"]:
                     for f in e["fields"]:
                         d[f"f{f}"] = f
-                real.append(w.decode(root, dict(d)))
+                for a in parents:
+                    d[f"g{a}"] = 7
+                real.append(w.decode(root, dict(d), e.get("fmt", "dict")))
                 if not h["field"]:
                     # a variant accepts when every required field of its chain is present
                     acc = [c[0] for c in classes if all((not reqs[a]) or f"f{a}" in d for a in chain(parents, c[0]))]
@@ -261,15 +314,24 @@ def real_history(ctx, h, idx):
     ctx.bump("late-definition" if late else "all-defined-first")
     if h["tagger"]:
         ctx.bump("tagger-fn")
+    fmts = sorted({e.get("fmt", "dict") for e in h["events"] if "q" in e}) or ["dict"]
+    if len(fmts) > 1:
+        ctx.bump("multi-format history")
+    if h.get("two_taggers"):
+        ctx.bump("two tagger functions in one holder")
     if h["field"]:
-        evs = []
-        for e in h["events"]:
-            if "d" in e:
-                evs.append({"d": [e["d"][0], e["d"][1], model_tag(h, e["d"])]})
-            elif "q" in e:
-                evs.append({"q": e["q"]})
-        lines = [{"op": "discr", "subtypes": h["sub"], "supertypes": h["sup"], "events": evs}]
-    return {"h": h, "real": real, "lines": lines}
+        # every format has its own compiled methods and its own variants registry: the model is run
+        # once per format on the definitions plus the queries of that format
+        lines = []
+        for fm in fmts:
+            evs = []
+            for e in h["events"]:
+                if "d" in e:
+                    evs.append({"d": [e["d"][0], e["d"][1], model_tag(h, e["d"])]})
+                elif "q" in e and e.get("fmt", "dict") == fm:
+                    evs.append({"q": e["q"]})
+            lines.append({"op": "discr", "subtypes": h["sub"], "supertypes": h["sup"], "events": evs})
+    return {"h": h, "real": real, "lines": lines, "fmts": fmts}
 
 
 def judge(ctx, rec, out):
@@ -278,7 +340,15 @@ def judge(ctx, rec, out):
         ctx.obligation("model evaluates the history", False, str(out)[:300])
         return
     if h["field"]:
-        impl, spec = out[0]["impl"], out[0]["spec"]
+        # merge the per-format model runs back into event order
+        fmts = rec["fmts"]
+        its = {fm: (iter(out[j]["impl"]), iter(out[j]["spec"])) for j, fm in enumerate(fmts)}
+        impl, spec = [], []
+        for e in h["events"]:
+            if "q" in e:
+                a, b = its[e.get("fmt", "dict")]
+                impl.append(next(a))
+                spec.append(next(b))
     else:
         impl = spec = [o["out"] for o in out]
     seen = []
